@@ -29,7 +29,7 @@ COLS = {
 }
 
 
-def make_rows(cols, n, seed):
+def make_rows(cols, n, seed, nulls=False):
     r = rand_bytes(seed, 4 * n + 8)
     rows = []
     for k in range(n):
@@ -46,6 +46,8 @@ def make_rows(cols, n, seed):
                 row[c] = {'a': k, 'b': 'x' * (b[3] % 4)}
             else:
                 row[c] = [k + j for j in range(b[0] % 4)]
+            if nulls and (b[1] + 3 * len(c) + k) % 5 == 0:
+                row[c] = None         # every column is nullable
         rows.append(row)
     return rows
 
@@ -53,7 +55,7 @@ def make_rows(cols, n, seed):
 def run_case(case):
     cols = case['cols']
     schema = pa.schema([(c, COLS[c]) for c in cols])
-    rows = make_rows(cols, case['rows'], case['seed'])
+    rows = make_rows(cols, case['rows'], case['seed'], case.get('nulls', False))
     ctx = dict(case)
     d = tempfile.mkdtemp(prefix='rxsci_c20_')
     try:
@@ -81,13 +83,13 @@ def run_case(case):
         else:
             r = drive.collect(parquet.load_from_file(f, batch_size=case['load_batch']))
         H.require_clean(r, 'parquet.load_from_file', **ctx)
-        if r.items != rows:
+        if r.items != rows or any(type(a.get(c)) is not type(b.get(c)) for a, b in zip(r.items, rows) for c in cols):
             raise Violation('load_from_file returned %d rows, %d were written%s' % (
                 len(r.items), len(rows), '' if len(r.items) != len(rows) else ' (contents differ)'), **ctx)
     finally:
         shutil.rmtree(d, ignore_errors=True)
     n, b = case['rows'], case['dump_batch']
-    labels = ['compression:%s' % case['compression'], 'fileobj' if case['fileobj'] else 'path', 'cols=%d' % len(cols)]
+    labels = (['nulls'] if case.get('nulls') else []) + ['compression:%s' % case['compression'], 'fileobj' if case['fileobj'] else 'path', 'cols=%d' % len(cols)]
     if n == 0:
         labels.append('rows=0')
     elif n % b == 0:
@@ -111,7 +113,7 @@ def case_gen(draw):
     cols = draw(st.lists(st.sampled_from(sorted(COLS)), min_size=1, max_size=5, unique=True))
     return {'rows': rows, 'dump_batch': b, 'load_batch': draw(st.one_of(st.integers(1, 8), st.integers(1, 2000))),
             'row_group': draw(st.sampled_from([None, None, 1, 3, 100])), 'compression': draw(st.sampled_from(['NONE', 'snappy', 'gzip', 'zstd'])),
-            'cols': cols, 'fileobj': draw(st.booleans()), 'seed': draw(st.integers(0, 99))}
+            'cols': cols, 'fileobj': draw(st.booleans()), 'seed': draw(st.integers(0, 99)), 'nulls': draw(st.booleans())}
 
 
 def boundary(tier):
